@@ -113,7 +113,7 @@ impl Sub for TopK {
             1 => Just(Key::NumThenScore),
         ];
         let probe = (sq, 0u8..12, prop_oneof![4 => Just(0u8), 1 => 1u8..6], key).prop_map(|(q, k, o, key)| Probe { q, k, o, key });
-        (corpus_strategy(tier.pick(40, 160)), prop::collection::vec(probe, 20..41), any::<bool>(), 0u8..4, prop::collection::vec(any::<u16>(), 3..7))
+        (corpus_strategy(tier.pick(40, 160)), prop::collection::vec(probe, 20..41), any::<bool>(), 0u8..6, prop::collection::vec(any::<u16>(), 3..7))
             .prop_map(|(mut corpus, probes, threads4, uniform, extra_cuts)| {
                 // >= 3 uneven segments often
                 if corpus.cuts.len() < 2 {
@@ -129,6 +129,20 @@ impl Sub for TopK {
                     corpus.repeat = corpus.repeat.min(5);
                     corpus.cuts = extra_cuts;
                     corpus.marks = vec![0; corpus.marks.len()];
+                } else if uniform <= 2 && corpus.docs.len() >= 3 {
+                    // few distinct keys, many copies of each inside every segment: 2-4 template documents
+                    // interleaved and replicated, so that a segment holds more than 2K documents with the same
+                    // key (its TopNComputer truncates and returns them in no particular order) while other
+                    // segments contribute better and worse keys (the merge truncates in the middle of a tie group)
+                    let t = 2 + (extra_cuts[0] as usize % 3);
+                    let templates: Vec<QDoc> = corpus.docs.iter().take(t).cloned().collect();
+                    let n = corpus.docs.len().clamp(12, 40);
+                    corpus.docs = (0..n).map(|i| templates[(i * 7 + i / t) % templates.len()].clone()).collect();
+                    corpus.repeat = corpus.repeat.clamp(3, 10);
+                    corpus.cuts = extra_cuts;
+                    if uniform == 2 {
+                        corpus.deletes.truncate(1);
+                    }
                 }
                 TopKCase { corpus, probes, threads4 }
             })
